@@ -547,6 +547,234 @@ def _ushard(cases: list) -> list:
     return out
 
 
+# ---- tasks nobody but the helper refers to ------------------------------------------------------------------
+
+ORPHAN_PARKS = ('future', 'event', 'queue', 'nested', 'sleep')
+
+
+def orphan_cases() -> list[dict]:
+    """The family: {TaskDoneCallback, ThreadTaskDoneCallback} × {close, aclose} × {called after asyncio.run() has returned, called from another thread
+    while the tasks are still parked} × how the fire-and-forget tasks were registered (register() from inside the task; register(task) by the creator,
+    which then drops its reference; both) × what they are parked on (a future / Event / Queue that only the task's own frame refers to, the same one
+    coroutine deeper, a long sleep) × 1–3 of them × 1–3 full garbage collections (back to back or with loop turns in between)."""
+    out = []
+    k = 0
+    for helper in ('task', 'union'):
+        for closer in ('close', 'aclose'):
+            for when in ('after-run', 'during-run'):
+                for reg in ('self', 'creator', 'mixed'):
+                    out.append({'helper': helper, 'closer': closer, 'when': when, 'reg': reg, 'n': 1 + k % 3, 'gc': 1 + (k // 2) % 3, 'turns': k % 2 == 1,
+                                'parks': [ORPHAN_PARKS[(k + j) % len(ORPHAN_PARKS)] for j in range(1 + k % 3)]})
+                    k += 1
+    return out
+
+
+def orphan_case(case: dict) -> dict:
+    """Fire-and-forget tasks: `loop.create_task(coro())` whose result the program does not keep, each registered (by itself with `register()`, or by its
+    creator with `register(task)` before the creator drops the reference) and parked on something only its own frame refers to.  The program then has the
+    garbage collector run (`gc.collect()`), lets a registered task that it does hold finish, and returns from its main coroutine: `asyncio.run()` cancels
+    every task of the loop, so every task of the loop ends.  close()/aclose() is called after that (or already while the tasks are parked, from another
+    thread).  Oracle (the property's words): every registered task was called back exactly once, after it had ended (cancelled is ended); close returns only
+    after that.  The harness itself holds the tasks by name and by weak reference only.  An unregistered task of the same shape tells whether the program
+    really dropped the last reference (it must be gone after the collection — otherwise the scenario did not do what it says)."""
+    import gc
+    import weakref
+    if case['helper'] == 'task':
+        from nextline.utils.done_callback.task import TaskDoneCallback as Helper
+    else:
+        from nextline.utils.done_callback import ThreadTaskDoneCallback as Helper  # type: ignore
+    lock = threading.Lock()
+    log: list[str] = []
+    registered: list = []                # (name, weakref)
+    called: list = []
+    early_cb: list = []
+    destroyed: list = []                 # names of tasks the loop reported as 'destroyed but it is pending'
+    harness: list[str] = []
+    ctl_gone: list = []
+
+    def done(x: Any) -> None:
+        n = x.get_name()
+        ended = x.done()
+        with lock:
+            log.append(f'cb {n}')
+            called.append(n)
+            if not ended:
+                early_cb.append(n)
+
+    def note(t: Any) -> None:
+        with lock:
+            registered.append((t.get_name(), weakref.ref(t)))
+            log.append(f'register {t.get_name()}')
+
+    def on_loop_error(_: Any, ctx: dict) -> None:
+        t = ctx.get('task')
+        with lock:                       # names only: the context must not keep the task alive
+            destroyed.append((t.get_name() if t is not None else '?', str(ctx.get('message'))))
+
+    obj: Any = Helper(done=done) if case['helper'] == 'task' else Helper(done=done, interval=0.001)  # type: ignore
+    parked: list = []
+    names = [f'O{i}' for i in range(case['n'])]
+    by_self = {nm: (case['reg'] == 'self' or (case['reg'] == 'mixed' and i % 2 == 0)) for i, nm in enumerate(names)}
+    close_called = threading.Event()
+    at_return: dict = {}
+    err: list = []
+    closed = threading.Event()
+
+    async def park(kind: str) -> None:
+        if kind == 'future':
+            await asyncio.get_running_loop().create_future()
+        elif kind == 'event':
+            await asyncio.Event().wait()
+        elif kind == 'queue':
+            await asyncio.Queue().get()
+        elif kind == 'nested':
+            async def inner() -> None:
+                await asyncio.get_running_loop().create_future()
+            await inner()
+        else:
+            await asyncio.sleep(3600)
+
+    async def orphan(nm: str, kind: str, register: bool) -> None:
+        if register:
+            note(obj.register())
+        parked.append(nm)
+        await park(kind)                 # reached in the same step as the lines above
+
+    async def kept(gate: asyncio.Event) -> None:
+        note(obj.register())
+        await gate.wait()
+        log.append('finish K')
+
+    async def turns(what: str, cond: Any) -> None:
+        for _ in range(2000):
+            if cond():
+                return
+            await asyncio.sleep(0)
+        harness.append(what)
+
+    def spawn(loop: Any) -> Any:
+        for nm, kind in zip(names, case['parks']):
+            if by_self[nm]:
+                loop.create_task(orphan(nm, kind, True), name=nm)       # the result is not kept
+            else:
+                t = loop.create_task(orphan(nm, kind, False), name=nm)
+                obj.register(t)
+                note(t)
+                del t
+        return weakref.ref(loop.create_task(orphan('ctl', 'future', False), name='ctl'))    # same shape, not registered
+
+    async def main() -> None:
+        loop = asyncio.get_running_loop()
+        loop.set_exception_handler(on_loop_error)
+        gate = asyncio.Event()
+        k = loop.create_task(kept(gate), name='K')
+        ctl_ref = spawn(loop)
+        await turns('the tasks did not start', lambda: len(parked) == len(names) + 1 and len(registered) == len(names) + 1)
+        for _ in range(case['gc']):
+            gc.collect()
+            if case['turns']:
+                await asyncio.sleep(0)
+        ctl_gone.append(ctl_ref() is None)
+        with lock:
+            log.append('gc')
+        if case['when'] == 'during-run':
+            tc.start()
+            if not await asyncio.to_thread(close_called.wait, 30):
+                harness.append('close was not called')
+            await asyncio.sleep(0.05)
+            gc.collect()
+        gate.set()
+        await k
+        del k
+        await asyncio.sleep(0)
+        # asyncio.run() now cancels every task of the loop that has not ended
+
+    def closer() -> None:
+        try:
+            with lock:
+                log.append('closeCall')
+            close_called.set()
+            if case['closer'] == 'close':
+                obj.close()
+            else:
+                asyncio.run(obj.aclose())
+        except BaseException as e:  # noqa
+            err.append(f'{type(e).__name__}: {e}')
+        with lock:
+            at_return['counts'] = {n: called.count(n) for n, _ in registered}
+            at_return['running'] = [n for n, r in registered if (lambda t: t is not None and not t.done())(r())]
+            log.append('closeRet')
+        closed.set()
+    tc = threading.Thread(target=closer, name='nlv-closer', daemon=True)
+    gc.collect()                         # whatever earlier scenarios of this process left behind
+    run_err: list = []
+
+    def host() -> None:
+        try:
+            asyncio.run(main())
+        except BaseException as e:  # noqa
+            run_err.append(f'{type(e).__name__}: {e}')
+    th = threading.Thread(target=host, name='nlv-host', daemon=True)
+    th.start()
+    th.join(120)
+    if th.is_alive():
+        raise RuntimeError('asyncio.run() of the scenario did not return within 120 s')
+    with lock:
+        log.append('run returned')
+    if case['when'] == 'after-run':
+        gc.collect()
+        tc.start()
+    what = f"{case['closer']}()"
+    msgs: list[str] = []
+    if not closed.wait(90):
+        with lock:
+            msgs.append(f'{what} did not return within 90 s after asyncio.run() had cancelled all tasks and returned (registered: {[n for n, _ in registered]}, '
+                        f'called back: {sorted(called)})')
+        getattr(obj, '_task_callback', obj)._active.clear()         # let the closer thread go
+    time.sleep(0.05)                     # a repeated callback would show up by now; nothing below waits for a callback that has not happened
+    if run_err:
+        raise RuntimeError(f'the program raised {run_err[0]}')
+    if harness:
+        raise RuntimeError('; '.join(harness))
+    if ctl_gone != [True]:
+        raise RuntimeError('the unregistered fire-and-forget task was not collected: the scenario holds a reference it says it does not hold')
+    with lock:
+        if sorted(n for n, _ in registered) != sorted(names + ['K']):
+            raise RuntimeError(f'registered {[n for n, _ in registered]}, expected {names + ["K"]}')
+        gone = {n for n, _ in destroyed}
+
+        def desc(n: str) -> str:
+            if n == 'K':
+                return 'task K (held and awaited by the program)'
+            return (f"fire-and-forget task {n} (registered {'by itself' if by_self[n] else 'by its creator, which dropped its reference'}, parked on "
+                    f"{case['parks'][names.index(n)]}" + ("; the loop reported 'Task was destroyed but it is pending!' for it" if n in gone else '') + ')')
+        for n, c in at_return.get('counts', {}).items():
+            if c != 1:
+                msgs.append(f'{what} returned when the callback of registered {desc(n)} had run {c} times')
+        for n in at_return.get('running', []):
+            msgs.append(f'{what} returned while registered {desc(n)} was still running')
+        for n in early_cb:
+            msgs.append(f'the callback of {desc(n)} ran before the task had ended')
+        for n, _ in registered:
+            if called.count(n) != 1:
+                msgs.append(f'{desc(n)} was registered; the program called gc.collect() and ended, asyncio.run() cancelled all tasks and returned, {what} has '
+                            f'returned; its callback ran {called.count(n)} times')
+        if err:
+            msgs.append(f'{what} raised {err[0]}')
+        return {'log': list(log), 'msgs': msgs, 'destroyed': sorted(destroyed)}
+
+
+def _oshard(cases: list) -> list:
+    out = []
+    for c in cases:
+        try:
+            r = orphan_case(c)
+            out.append((c, r['log'], r['msgs'], None))
+        except BaseException as e:  # noqa
+            out.append((c, [], [], f'{type(e).__name__}: {e}'))
+    return out
+
+
 def lines_of(log: list[str], raising: bool) -> list[str]:
     return [f"threads {'1' if raising else '-'}"] + ['obs ' + l for l in log]
 
@@ -661,6 +889,9 @@ def run(chk: common.Check) -> None:
                     'own event loops, thread A parked before every bytecode of _callback while thread B registers / is called back. ThreadTaskDoneCallback (union): a registered task / '
                     'thread still running when close() / aclose() begins starts 1–3 threads afterwards that register (themselves, by their starter, or chained), × state of the '
                     'thread monitor at that moment (idle, one reported, one ending, one alive); close must return only after all of them ended and were called back once. '
+                    'Fire-and-forget tasks (TaskDoneCallback and the union): 1–3 registered tasks (by themselves / by their creator, which drops its reference) that '
+                    'nothing but the helper refers to, parked on a future / Event / Queue only their own frame holds (or a sleep), 1–3 gc.collect(), the loop torn down '
+                    'by asyncio.run(); close / aclose after that or from another thread meanwhile; each called back exactly once, after it ended. '
                     'Observed label sequences are checked for '
                     'acceptance by the Lean LTS. Non-trivial: the preemption point was actually reached; distinct = distinct (point, variant).')
     chk.assumptions += ['preemption is forced only before the chosen bytecode; other GIL switch points are whatever CPython produces',
@@ -698,6 +929,8 @@ def run(chk: common.Check) -> None:
         xres = pool.map(_xshard, [xcases[i::n] for i in range(n)])
         ucases = union_cases()
         ures = pool.map(_ushard, [ucases[i::n] for i in range(n)])
+        ocases = orphan_cases()
+        ores = pool.map(_oshard, [ocases[i::n] for i in range(n)])
     rows = []
     for sh in res:
         for i, lines, msgs, reached, err in sh:
@@ -753,6 +986,18 @@ def run(chk: common.Check) -> None:
             chk.cov.count('kinds', f"union-{c['closer']}-{c['starter']}-early-{c['early']}")
             if msgs:
                 oracle_fail.append((('union-late-register', None, c, False), ['obs ' + l for l in ulog], msgs))
+    # registered fire-and-forget tasks that nothing but the helper refers to, across garbage collections and the tear-down of their loop
+    for sh in ores:
+        for c, olog, msgs, err in sh:
+            if err:
+                msgs = [f'the scenario did not complete: {err[:300]}']
+            chk.cov.case(repr(('orphan-task', sorted(c.items()))))
+            chk.cov.count('where', 'orphan-task')
+            chk.cov.count('kinds', f"orphan-{c['helper']}-{c['closer']}-{c['when']}-reg-{c['reg']}")
+            for pk in c['parks']:
+                chk.cov.count('kinds', f'orphan-parked-on-{pk}')
+            if msgs:
+                oracle_fail.append((('orphan-task', None, c, False), ['obs ' + l for l in olog], msgs))
     # the consequence the property names: every trace that starts in the child is reported as ended — through the real trace machinery
     # in-process, on programs whose threads and tasks end in every way (return, raise, cancellation, left pending, not joined)
     from .. import progs
@@ -769,7 +1014,15 @@ def run(chk: common.Check) -> None:
                                   # end in the ordinary way or do not start at all: the oracle below holds either way.)
                                   ("import asyncio\nimport threading\nimport time\n\n\ndef work():\n    time.sleep(0.05)\n\n\nasync def coro():\n"
                                    "    await asyncio.to_thread(time.sleep, 0.01)\n    await asyncio.sleep(0.5)\n    await asyncio.to_thread(work)\n\n\n"
-                                   "threading.Thread(target=asyncio.run, args=(coro(),)).start()\ntime.sleep(0.2)\n", {})]):
+                                   "threading.Thread(target=asyncio.run, args=(coro(),)).start()\ntime.sleep(0.2)\n", {}),
+                                  # fire-and-forget tasks parked on something only their own frame refers to (one registers a second one of the same kind), a task
+                                  # the script holds and awaits, and garbage collections in between; asyncio.run() cancels the parked ones at its end
+                                  ("import asyncio\nimport gc\n\n\nasync def orphan(n):\n    if n:\n        asyncio.get_running_loop().create_task(orphan(n - 1))\n"
+                                   "    fut = asyncio.get_running_loop().create_future()\n    await fut\n\n\nasync def waiter():\n    await asyncio.Event().wait()\n\n\n"
+                                   "async def kept():\n    await asyncio.sleep(0.01)\n    return 1\n\n\nasync def main():\n"
+                                   "    asyncio.get_running_loop().create_task(orphan(1))\n    asyncio.ensure_future(waiter())\n    t = asyncio.create_task(kept())\n"
+                                   "    await asyncio.sleep(0)\n    await asyncio.sleep(0)\n    gc.collect()\n    await t\n    gc.collect()\n    await asyncio.sleep(0.01)\n"
+                                   "    gc.collect()\n\n\nasyncio.run(main())\nx = 1\n", {})]):
         for pol in ({'kind': 'all', 'command': 'next'}, {'kind': 'all', 'command': 'continue'}):
             tspecs.append({'source': src, 'policy': pol, 'trace_threads': True, 'trace_modules': False, 'kind': 'every-trace-ends', 'timeout': 40,
                            'want_reference': False, 'want_recorder': False})
